@@ -115,10 +115,13 @@ def histories(m, meta, n_hist=3000, seed=7):
     class BarArgs(ArgsNamespace, render_cls=Bar):
         y: int = 0
 
+    derived = {}       # arguments of the operations that depend on the state (computed by the model run, reused by the real runs)
+
     def model_run(N, loops, ops):
         nxt, loop, closed, size, dur, x, pad = 0, loops, False, Size(2, 2), 10, 0, ExactPadding()
         tr = []
-        for op in ops:
+        derived.clear()
+        for idx, op in enumerate(ops):
             k = op[0]
             if k == "next":
                 if closed:
@@ -133,7 +136,10 @@ def histories(m, meta, n_hist=3000, seed=7):
                         tr.append(("stop",))
                         continue
                 ps = pad.get_padded_size(size)
-                tr.append(("frame", nxt, dur if dur is not FrameDuration.DYNAMIC else 77, tuple(ps), int(str(x)[0]), loop))   # the digit the render shows
+                w_, h_ = size
+                inner = "\n".join((str(nxt % 10) + str(x))[:w_].ljust(w_, ".") for _ in range(h_))
+                # (the padded text: the render placed by the padding in effect - alignment, margins and fill included)
+                tr.append(("frame", nxt, dur if dur is not FrameDuration.DYNAMIC else 77, tuple(ps), int(str(x)[0]), loop, pad.pad(inner, size)))   # the digit the render shows
                 nxt += 1
                 continue
             if k == "close":
@@ -152,6 +158,15 @@ def histories(m, meta, n_hist=3000, seed=7):
                 nxt = f
             elif k == "size":
                 size = op[1]
+            elif k == "size=padded":
+                size = pad.get_padded_size(size)          # the new render size happens to equal the padded size in effect
+                derived[idx] = size
+            elif k == "pad~":
+                # another padding with the SAME padded size for the current render size: other margins / alignment / fill
+                ps = pad.get_padded_size(size)
+                dw, dh = ps[0] - size[0], ps[1] - size[1]
+                pad = [ExactPadding(dw, 0, 0, dh), ExactPadding(0, dh, dw, 0), ExactPadding(dw // 2, dh // 2, dw - dw // 2, dh - dh // 2, fill="#")][op[1] % 3]
+                derived[idx] = pad
             elif k == "dur":
                 if isinstance(op[1], int) and op[1] <= 0:
                     tr.append(("verr",))
@@ -173,7 +188,7 @@ def histories(m, meta, n_hist=3000, seed=7):
 
     def _x(f):
         for line in f.render_output.split("\n"):
-            s = line.strip()
+            s = line.strip(" #")
             if len(s) >= 2 and s[0].isdigit():
                 return int(s[1]) if s[1].isdigit() else None
         return None
@@ -182,19 +197,23 @@ def histories(m, meta, n_hist=3000, seed=7):
         r = Foo(N)
         it = RenderIterator(r, loops=loops, cache=cache)
         tr = []
-        for op in ops:
+        for idx, op in enumerate(ops):
             k = op[0]
             try:
                 if k == "next":
                     try:
                         f = next(it)
-                        tr.append(("frame", f.number, f.duration, tuple(f.render_size), _x(f), it.loop))
+                        tr.append(("frame", f.number, f.duration, tuple(f.render_size), _x(f), it.loop, f.render_output))
                     except StopIteration:
                         tr.append(("stop",))
                 elif k == "seek":
                     it.seek(op[1], op[2]); tr.append(("ok",))
                 elif k == "size":
                     it.set_render_size(op[1]); tr.append(("ok",))
+                elif k == "size=padded":
+                    it.set_render_size(derived.get(idx, Size(2, 2))); tr.append(("ok",))      # (the argument the model derived)
+                elif k == "pad~":
+                    it.set_padding(derived.get(idx, ExactPadding())); tr.append(("ok",))
                 elif k == "dur":
                     it.set_frame_duration(op[1]); tr.append(("ok",))
                 elif k == "args":
@@ -226,7 +245,9 @@ def histories(m, meta, n_hist=3000, seed=7):
             elif c < 0.7: ops.append(("seek", rng.randint(-N - 1, N + 1), rng.choice(list(Seek))))
             elif c < 0.78: ops.append(("size", Size(rng.randint(2, 4), rng.randint(1, 3))))
             elif c < 0.84: ops.append(("dur", rng.choice([5, 20, FrameDuration.DYNAMIC, 0, -3])))
-            elif c < 0.88: ops.append(("args", rng.choice([0, 1, 2, 3, 2 ** 61])))
+            elif c < 0.86: ops.append(("args", rng.choice([0, 1, 2, 3, 2 ** 61])))
+            elif c < 0.87: ops.append(("size=padded",))
+            elif c < 0.88: ops.append(("pad~", rng.randint(0, 2)))
             elif c < 0.9: ops.append(("childargs", rng.choice([4, 5])))      # hash(2**61) == hash(1): equal hashes, different arguments
             elif c < 0.96: ops.append(("pad", rng.choice([ExactPadding(1, 0, 2, 1), AlignedPadding(6, 4), AlignedPadding(1, 1), ExactPadding(), AlignedPadding(0, -2)])))
             else: ops.append(("close",))
@@ -251,7 +272,7 @@ def histories(m, meta, n_hist=3000, seed=7):
             if moved or Foo.used_after_fin or fin_counts != [1]:
                 return {"reproduced": True, "input": {"frames": N, "loops": loops, "cache": cache, "ops": repr(ops)},
                         "observed": {"renderable_moved": moved, "render_with_finalized_data": Foo.used_after_fin, "finalize_calls": fin_counts}}
-        norm = lambda tr: [x[:5] + ((x[5] if loops > 0 else -1),) if x[0] == "frame" else x for x in tr]
+        norm = lambda tr: [x[:5] + ((x[5] if loops > 0 else -1),) + x[6:] if x[0] == "frame" else x for x in tr]
         if res[False] != res[True]:
             return {"reproduced": True, "input": {"frames": N, "loops": loops, "ops": repr(ops)}, "observed": {"uncached": res[False], "cached": res[True]},
                     "expected": "identical traces with caching on and off"}
